@@ -8,7 +8,7 @@
    midnight off X is the instant at which local day number X starts. *)
 From Coq Require Import ZArith List Bool.
 From MV Require Import C19.ChronoModel C19.ChronoRun C19.CivilProofs C19.ChronoProofs C19.FastProofs
-  C19.StateLineModel C19.StateLineRun C19.StateLineProofs.
+  C19.StateLineModel C19.StateLineRun C19.StateLineProofs C19.ZoneModel C19.ZoneProofs.
 Import ListNotations.
 Open Scope Z_scope.
 
@@ -346,3 +346,183 @@ Example C19_stateline_example :   (* states 0@zero, 5@100, 7@100 (added later: a
   sl_states l = [0; 3; 5; 7] /\ sl_points l = [zero_time; 50; 100; 100] /\
   get_state_by_time 100 l = Some 7 /\ get_state_by_time 99 l = Some 3 /\ get_state_by_time (zero_time - 1) l = Some 7.
 Proof. vm_compute. intuition reflexivity. Qed.
+
+(* ================================================================== zones with offset changes: TRANSITION TABLES
+   (MV.C19.ZoneModel).  A zone is an initial offset and a list of (UTC second, offset in force from then on); zlookup is
+   Location.lookup, resolve the zone part of time.Date, go_date_z time.Date, z_<helper> the helper of moment.go /
+   period.go over the table.  Vocabulary: off_at z u = offset in force at UTC second u; wall z u = u + off_at z u, the
+   wall clock shown at u (seconds since the epoch "as if UTC"); unix t = the UTC second of instant t.
+   Hypotheses, all decidable and evaluated by the harness on the tables extracted from package time:
+     zone_okb B D z      every offset within [-B, B]; transition times strictly increasing inside (alpha, omega),
+                         consecutive ones MORE than D seconds apart.  The theorems need D >= 2B: time.Date guesses the
+                         offset at the wall clock taken as UTC and corrects once, which is right only if no two offset
+                         changes lie within 2B of each other (real zones: B <= 14 h, changes weeks apart; the harness
+                         checks zone_okb (18 h) (36 h) on seven IANA tables).
+     wall_regular z w    no transition makes the wall clock w non-existent or ambiguous: for every transition at s from
+                         offset o to o', w is outside [s + min o o', s + max o o').
+     midnight_regular z X = wall_regular z (X * 86400): local midnight of local day number X exists exactly once. *)
+
+(* ---- a table without transitions IS the fixed-offset zone of the theorems above: every z_ function equals the
+   fixed-offset function of the same name, so the two models are one *)
+Theorem C19_zone_table_generalises_fixed_offset : forall off,
+  let z := fixed_zone off in
+  (forall u, zlookup z u = (off, ALPHA, OMEGA)) /\
+  (forall y mo d h mi s ns, go_date_z z y mo d h mi s ns = go_date off y mo d h mi s ns) /\
+  (forall t, z_date_of z t = date_of off t /\ z_clock_of z t = clock_of off t /\ z_weekday_of z t = weekday_of off t /\
+             z_year_of z t = year_of off t /\ z_month_of z t = month_of off t /\ z_day_of z t = day_of off t /\
+             z_hour_of z t = hour_of off t /\ z_minute_of z t = minute_of off t /\ z_second_of z t = second_of off t) /\
+  (forall t yy mm dd, z_add_date z t yy mm dd = add_date off t yy mm dd) /\
+  (forall t, z_get_start_of_day z t = get_start_of_day off t /\ z_get_end_of_day z t = get_end_of_day off t) /\
+  (forall t n, z_get_relative_start_of_day z t n = get_relative_start_of_day off t n /\
+               z_get_relative_end_of_day z t n = get_relative_end_of_day off t n) /\
+  (forall t w, z_get_start_of_week z t w = get_start_of_week off t w /\ z_get_end_of_week z t w = get_end_of_week off t w) /\
+  (forall t w k, z_get_relative_start_of_week z t w k = get_relative_start_of_week off t w k /\
+                 z_get_relative_start_of_week_168h z t w k = get_relative_start_of_week_168h off t w k /\
+                 z_get_relative_end_of_week z t w k = get_relative_end_of_week off t w k /\
+                 z_get_relative_time_of_week z t w k = get_relative_time_of_week off t w k) /\
+  (forall loff t h m s, z_get_next_moment (fixed_zone loff) z t h m s = get_next_moment loff off t h m s /\
+                   z_get_next_moment_adddate (fixed_zone loff) z t h m s = get_next_moment_adddate loff off t h m s /\
+                   z_is_moment_passed (fixed_zone loff) z t h m s = is_moment_passed loff off t h m s /\
+                   z_is_moment_future (fixed_zone loff) z t h m s = is_moment_future loff off t h m s) /\
+  (forall off2 t1 t2, let z2 := fixed_zone off2 in
+     z_is_same_day z t1 z2 t2 = is_same_day off t1 off2 t2 /\ z_is_same_hour z t1 z2 t2 = is_same_hour off t1 off2 t2 /\
+     z_is_same_minute z t1 z2 t2 = is_same_minute off t1 off2 t2 /\ z_is_same_week z t1 z2 t2 = is_same_week off t1 off2 t2 /\
+     z_is_same_month z t1 z2 t2 = is_same_month off t1 off2 t2 /\ z_is_same_year z t1 z2 t2 = is_same_year off t1 off2 t2 /\
+     (forall unit, z_delta_units unit z t1 z2 t2 = delta_units unit off t1 off2 t2)) /\
+  (forall t, z_get_month_days z t = get_month_days off t) /\
+  (forall t n, z_new_period_window_week z t = new_period_window_week off t /\
+               z_new_period_window_week_168h z t = new_period_window_week_168h off t /\
+               z_new_period_with_day_zero z t n = new_period_with_day_zero off t n /\
+               z_new_period_with_day z t n = new_period_with_day off t n).
+Proof. exact zone_table_generalises_fixed_offset. Qed.
+Print Assumptions C19_zone_table_generalises_fixed_offset.
+
+Example C19_zone_table_example :   (* the tables used by the examples below are well formed with B = 18 h, D = 36 h *)
+  zone_okb 64800 129600 ny_table = true /\ zone_okb 64800 129600 berlin_table = true /\
+  zone_okb 64800 129600 havana_table = true /\ zone_okb 64800 129600 (fixed_zone 20700) = true.
+Proof. vm_compute. intuition reflexivity. Qed.
+
+(* ---- (a) Location.lookup: the offset returned is the one in force at u (that of the last transition at or before u,
+   the initial offset if there is none), start <= u < end, and the whole answer is constant on [start, end) *)
+Theorem C19_dst_lookup_sound : forall B D z u o s e, zone_okb B D z = true -> ALPHA <= u < OMEGA ->
+  zlookup z u = (o, s, e) ->
+  ((o = z_first z /\ forall w o', In (w, o') (z_trans z) -> u < w) \/
+   (exists w, In (w, o) (z_trans z) /\ w <= u /\ forall w' o', In (w', o') (z_trans z) -> w' <= u -> w' <= w)) /\
+  s <= u < e /\ (forall v, s <= v < e -> zlookup z v = (o, s, e)) /\ - B <= o <= B.
+Proof. intros B D z u o s e H. exact (lookup_sound B D z u o s e (zone_okb_ok B D z H)). Qed.
+Print Assumptions C19_dst_lookup_sound.
+
+Example C19_dst_lookup_example :   (* New_York: 2024-03-10 06:59:59 UTC is still EST, 07:00:00 UTC is EDT until 2024-11-03 06:00 UTC *)
+  zlookup ny_table 1710053999 = (-18000, 1699164000, 1710054000) /\
+  zlookup ny_table 1710054000 = (-14400, 1710054000, 1730613600) /\
+  zlookup ny_table 0 = (-18000, ALPHA, 1678604400) /\ zlookup ny_table 1800000000 = (-18000, 1762063200, OMEGA).
+Proof. vm_compute. intuition reflexivity. Qed.
+
+(* ---- (b) time.Date inverts the wall clock.  w = the requested wall clock (civil date and time as seconds since the
+   epoch "as if UTC"), r = resolve z w = the UTC second time.Date returns (go_date_z = resolve on the normalised
+   fields).  Whatever start/end the lookups report, r = w - off(w - off(w)).
+   * If some instant shows w, so does r; if two instants show w (repeated hour) r is the one whose offset is
+     off(w - off(w)): the EARLIER one in New_York (first 01:30 on 2024-11-03), the LATER one in Berlin (second 02:30 on
+     2024-10-27).  If w is regular, r is THE instant showing w, every earlier instant shows less and every later more.
+   * If no instant shows w (w inside the gap [s + o, s + o') of a transition at s from offset o to o' > o), r shows w
+     shifted by the size of the gap: BACKWARDS (r = w - o', just before the transition) when the first guess
+     w - off(w) is at or after s — New_York: 02:30 on 2024-03-10 becomes 01:30 EST — and FORWARDS (r = w - o, after
+     the transition) otherwise — Berlin: 02:30 on 2024-03-31 becomes 03:30 CEST. *)
+Theorem C19_dst_date_inverts_wall_clock : forall B D z w, zone_okb B D z = true -> 2 * B <= D ->
+  let r := resolve z w in
+  (forall y mo d h mi s ns, 1 <= mo <= 12 -> 0 <= ns < NS ->
+     go_date_z z y mo d h mi s ns = resolve z (days_from_civil y mo d * DAY_S + (h * 3600 + mi * 60 + s)) * NS + ns) /\
+  r = w - off_at z (w - off_at z w) /\
+  (forall u, wall z u = w -> wall z r = w /\ (r = u <-> off_at z (w - off_at z w) = off_at z u)) /\
+  (wall_regular z w = true ->
+     wall z r = w /\ (forall v, v < r -> wall z v < w) /\ (forall v, r < v -> w < wall z v)) /\
+  ((forall u, wall z u <> w) ->
+     exists s o o', o < o' /\ s + o <= w < s + o' /\
+       (forall v, w - B <= v <= w + B -> off_at z v = if v <? s then o else o') /\
+       ((s <= w - off_at z w /\ r = w - o' /\ r < s /\ wall z r = w - (o' - o)) \/
+        (w - off_at z w < s /\ r = w - o /\ s <= r /\ wall z r = w + (o' - o)))).
+Proof. exact date_inverts_wall_clock. Qed.
+Print Assumptions C19_dst_date_inverts_wall_clock.
+
+Example C19_dst_date_example :
+  (* gaps: New_York 2024-03-10 02:30 -> 06:30 UTC = 01:30 EST; Berlin 2024-03-31 02:30 -> 01:30 UTC = 03:30 CEST *)
+  go_date_z ny_table 2024 3 10 2 30 0 0 = 1710052200 * NS /\ z_clock_of ny_table (1710052200 * NS) = (1, 30, 0) /\
+  go_date_z berlin_table 2024 3 31 2 30 0 0 = 1711848600 * NS /\ z_clock_of berlin_table (1711848600 * NS) = (3, 30, 0) /\
+  wall_regular ny_table (19792 * DAY_S + 9000) = false /\
+  (* repeated hours: New_York 2024-11-03 01:30 -> the first (EDT, 05:30 UTC); Berlin 2024-10-27 02:30 -> the second (CET, 01:30 UTC) *)
+  go_date_z ny_table 2024 11 3 1 30 0 0 = 1730611800 * NS /\ zoff ny_table (1730611800 * NS) = -14400 /\
+  go_date_z berlin_table 2024 10 27 2 30 0 0 = 1729992600 * NS /\ zoff berlin_table (1729992600 * NS) = 3600 /\
+  (* a regular wall clock on a transition day: New_York 2024-03-10 03:00 = 07:00 UTC, the instant of the transition *)
+  wall_regular ny_table (19792 * DAY_S + 10800) = true /\ go_date_z ny_table 2024 3 10 3 0 0 0 = 1710054000 * NS.
+Proof. vm_compute. intuition reflexivity. Qed.
+
+(* ---- (c) start of day: if local midnight of t's civil day exists exactly once, the result has t's civil date, reads
+   00:00:00.0, is not after t, is THE boundary of the day (an instant is at or after it iff its civil day is t's or a
+   later one), and the distance to t is t's time of day corrected by the offset change in between — below 24 h + 2B
+   (a civil day has 23..25 h in real zones) *)
+Theorem C19_dst_start_of_day : forall B D z t, zone_okb B D z = true -> 2 * B <= D ->
+  midnight_regular z (z_lday z t) = true ->
+  let r := z_get_start_of_day z t in
+  z_date_of z r = z_date_of z t /\ z_clock_of z r = (0, 0, 0) /\ nsec r = 0 /\ r <= t /\
+  (forall x, r <= x <-> z_lday z t <= z_lday z x) /\
+  t - r = (z_sod z t + (zoff z r - zoff z t)) * NS + nsec t /\
+  t - r < DAY + 2 * B * NS.
+Proof. intros B D z t H. exact (dst_start_of_day B D z t (zone_okb_ok B D z H)). Qed.
+Print Assumptions C19_dst_start_of_day.
+
+(* ---- end of day: if 23:59:59 of t's civil day exists exactly once, the result has t's civil date, reads 23:59:59.0,
+   t is before the next second, and an instant is before that next second iff its civil day is t's or an earlier one *)
+Theorem C19_dst_end_of_day : forall B D z t, zone_okb B D z = true -> 2 * B <= D ->
+  wall_regular z (z_lday z t * DAY_S + 86399) = true ->
+  let e := z_get_end_of_day z t in
+  z_date_of z e = z_date_of z t /\ z_clock_of z e = (23, 59, 59) /\ nsec e = 0 /\ t < e + SECOND /\
+  (forall x, x < e + SECOND <-> z_lday z x <= z_lday z t) /\
+  e + SECOND - t = (DAY_S - z_sod z t + (zoff z t - zoff z e)) * NS - nsec t /\
+  e + SECOND - t <= DAY + 2 * B * NS.
+Proof. intros B D z t H. exact (dst_end_of_day B D z t (zone_okb_ok B D z H)). Qed.
+Print Assumptions C19_dst_end_of_day.
+
+Example C19_dst_day_example :   (* New_York 2024-03-10 12:00 EDT (a 23-hour day): 00:00 EST = 05:00 UTC .. 23:59:59 EDT = 03:59:59 UTC *)
+  let t := 1710086400 * NS in
+  z_date_of ny_table t = (2024, 3, 10) /\ z_lday ny_table t = 19792 /\ midnight_regular ny_table 19792 = true /\
+  wall_regular ny_table (19792 * DAY_S + 86399) = true /\
+  z_get_start_of_day ny_table t = 1710046800 * NS /\ z_get_end_of_day ny_table t = 1710129599 * NS /\
+  z_get_end_of_day ny_table t + SECOND - z_get_start_of_day ny_table t = 23 * HOUR /\
+  (* Havana 2024-03-10 has no 00:00:00 (DST starts at local midnight): the hypothesis fails, GetStartOfDay returns 23:00 of March 9th *)
+  midnight_regular havana_table 19792 = false /\
+  z_date_of havana_table (z_get_start_of_day havana_table (1710088200 * NS)) = (2024, 3, 9).
+Proof. vm_compute. intuition reflexivity. Qed.
+
+(* ---- (g) the code AS WRITTEN before fixes/C19-dst-calendar-arithmetic.patch (168-hour weeks, AddDate applied to a
+   moment that time.Date moved out of a gap) violates the property on the New_York table: the three defects of
+   docs/C19-NOTES.md, now visible inside Coq (in fixed-offset zones the two forms are equal:
+   C19_fixed_offset_week_arithmetic) *)
+Theorem C19_dst_relative_week_168h_refuted :
+  exists z t w k, zone_okb 64800 129600 z = true /\ 0 <= w <= 6 /\
+    (* now = Monday 2024-03-11 00:30 EDT, week starts on Tuesday: the code as written answers Tuesday 2024-02-27, the
+       latest Tuesday 00:00 not after now is 2024-03-05 (and the repaired code returns it) *)
+    z_date_of z (z_get_relative_start_of_week_168h z t w k) = (2024, 2, 27) /\
+    z_date_of z (z_get_relative_start_of_week z t w k) = (2024, 3, 5) /\
+    z_weekday_of z (z_get_relative_start_of_week z t w k) = w /\ z_get_relative_start_of_week z t w k <= t /\
+    z_get_relative_start_of_week_168h z t w k < z_get_relative_start_of_week z t w k.
+Proof. exact relative_week_168h_refuted. Qed.
+Print Assumptions C19_dst_relative_week_168h_refuted.
+
+Theorem C19_dst_week_window_168h_refuted :
+  exists z t, zone_okb 64800 129600 z = true /\
+    (* anchor Sunday 2024-11-03 23:30 EST, a week of 169 h: the window of the code as written ends at 23:00 EST, before
+       its anchor; the repaired window contains it *)
+    ~ (pstart (z_new_period_window_week_168h z t) <= t < pend (z_new_period_window_week_168h z t)) /\
+    pstart (z_new_period_window_week z t) <= t < pend (z_new_period_window_week z t).
+Proof. exact week_window_168h_refuted. Qed.
+Print Assumptions C19_dst_week_window_168h_refuted.
+
+Theorem C19_dst_next_moment_adddate_refuted :
+  exists z t h m s, zone_okb 64800 129600 z = true /\ 0 <= h < 24 /\ 0 <= m < 60 /\ 0 <= s < 60 /\
+    (* now = 2024-03-10 04:00 EDT, 02:30:00 asked: today's 02:30 does not exist and time.Date moved it to 01:30; the
+       code as written adds a day to THAT and answers 2024-03-11 01:30, the repaired code 2024-03-11 02:30 *)
+    z_clock_of z (z_get_next_moment_adddate z z t h m s) = (1, 30, 0) /\
+    z_clock_of z (z_get_next_moment z z t h m s) = (h, m, s) /\
+    z_date_of z (z_get_next_moment z z t h m s) = z_date_of z (z_get_next_moment_adddate z z t h m s).
+Proof. exact next_moment_adddate_refuted. Qed.
+Print Assumptions C19_dst_next_moment_adddate_refuted.
